@@ -491,7 +491,8 @@ def same_bits(a, b):
 # ------------------------------------------------------------------------------- cases
 def gen_case(rng, fams, flavour=None):
     """-> dict(family, kinds, vals=[per slot values], share=[slot index whose OBJECT this slot reuses or None], params)"""
-    name, kinds, exprs, estk = rng.choice(fams)
+    nm = rng.choice(sorted(set(f[0] for f in fams)))
+    name, kinds, exprs, estk = rng.choice([f for f in fams if f[0] == nm])
     fl = flavour or rng.choices(['typical', 'adversarial', 'shared'], [0.5, 0.3, 0.2])[0]
     pfl = 'adversarial' if fl == 'adversarial' else 'typical'
     vals = [corr_poses.gen_pose_vals(rng, k, pfl) for k in kinds]
